@@ -731,6 +731,32 @@ def stream_canonical(ck, ask, pool, scratch):
                 ask(f"cb1_export 1 {f[0]} {f[1]} {f[2]} {f[3]} {f[4]} {f[5]} {f[6]} {f[7]}",
                     lambda a, inp=inp, canon_b=canon_b: s.compare(inp, hx(canon_b), a, "model: export of the parsed block is not the canonical form"))
     ask.flush()
+    # ---- certificate block v2.1 without ISK certificate: the size word is not looked at by the parser and recomputed by the export
+    from spsdk.utils.crypto.cert_blocks import CertBlockV21
+    for _ in range(ck.budget(8, 60)):
+        bits = rng.choice([256, 384])
+        keys = rng.sample(pool[("ecc", bits)] + pool[("ecc_lz", bits)][:6], rng.choice([1, 2, 3, 4]))
+        used = rng.randrange(len(keys))
+        ex = pyres(lambda: real_cb21(keys, ["obj_pub"] * len(keys), used, scratch).export())
+        if ex[0] != "ok":
+            s.expect(False, kdesc(keys, used=used), "CertBlockV21 (CA) cannot be built / exported", ex)
+            continue
+        data = ex[1]
+        junk = bytes(rng.getrandbits(8) for _ in range(rng.randrange(0, 12)))
+        for name, d in (("intact", data + junk), ("size-word", data[:8] + struct.pack("<I", rng.choice([0, 12, len(data) + 1, 2 ** 32 - 1])) + data[12:] + junk),
+                        ("version", data[:4] + struct.pack("<HH", rng.getrandbits(16), rng.getrandbits(16)) + data[8:])):
+            pr = pyres(CertBlockV21.parse, d)
+            s.note(("v21", tuple(k.id for k in keys), used, name), cls=f"v21ca-{name}-{'accepted' if pr[0] == 'ok' else 'refused'}")
+            inp = {"mutation": name, "data": d}
+            s.expect(pr[0] == "ok", inp, "a CA certificate block v2.1 with another size / version word is refused", pr[0])
+            if pr[0] != "ok":
+                continue
+            want = d[:8] + struct.pack("<I", len(data)) + d[12:len(data)]
+            ex2 = pyres(pr[1].export)
+            s.expect(ex2 == ("ok", want), inp, "re-export of an accepted CA certificate block v2.1 is not magic | version | recomputed size | record bytes", canon(ex2), want.hex())
+            s.expect(safe(lambda: pr[1].isk_certificate) is None, inp, "a block whose root key record has the CA flag is parsed with an ISK certificate")
+            ask(f"cb21_parse {hexs(d)}", lambda a, inp=inp, d=d: s.compare(inp, True, isinstance(a, str) and a.startswith("ok:") and a.rstrip().endswith("none"), "model: CA block not parsed without ISK certificate"))
+    ask.flush()
     # ---- lite ISK certificate
     p256 = pool[("ecc", 256)] + pool[("ecc_lz", 256)][:6]
     for ci in range(ck.budget(10, 80)):
@@ -1878,7 +1904,7 @@ def stream_cli(ck, pool, scratch, by_type):
     from spsdk.apps import nxpcrypto
     rng = ck.rng
     s = ck.stream("cli_rot", "`nxpcrypto rot calculate-hash -f <family> -r <revision> -k <file>...` through click's CliRunner for families of every "
-                  "rot_type, keys given as files in mixed encodings (incl. an encrypted private key with -p): printed hash = documented "
+                  "rot_type (HAB also with P-521 / mixed-curve EC certificates), keys given as files in mixed encodings (incl. an encrypted private key with -p): printed hash = documented "
                   "construction; non-trivial = distinct (family, key files)")
     runner = CliRunner()
     plan = []
@@ -1888,7 +1914,10 @@ def stream_cli(ck, pool, scratch, by_type):
                  ("srk_table_ahab", rng.sample(pool[("ecc", rng.choice([256, 384, 521]))], 4)),
                  ("srk_table_ahab_v2", rng.sample(pool[("ecc", 384)], 4)),
                  ("srk_table_ahab_v2", rng.sample(pool[("rsa", 2048)], 4)),
-                 ("srk_table_hab", rng.sample(pool[("rsa", 2048)], rng.choice([1, 4])))]
+                 ("srk_table_hab", rng.sample(pool[("rsa", 2048)], rng.choice([1, 4]))),
+                 # HAB with EC keys: always a P-521 key (key-size field 0x0209), one with a leading-zero coordinate, optionally other curves
+                 ("srk_table_hab", [rng.choice(pool[("ecc", 521)]), rng.choice(pool[("ecc_lz", 521)])]
+                  + rng.sample(pool[("ecc", 256)] + pool[("ecc", 384)], rng.choice([0, 1, 2])))]
     for rt, keys in plan:
         if rt == "cert_block_21" and len({k.bits for k in keys}) > 1:
             continue
